@@ -123,21 +123,30 @@ def _dispatch(eng, case, front):
         p = pm[eng.choice(len(pm), 'prefix')]
         key = _repr(enc, p, eng.choice(4, 'repr') if case.get('reprs') is None else case['reprs'][j])
         before = dict(model)
+        hj = mk(j)
+        if op == 0 and case.get('marked') and eng.choice(2, 'marked-handler'):
+            # a handler that an implementation may legitimately refuse (it looks like a coroutine function to asyncio,
+            # although calling it runs synchronously): accepted or refused, but a refusal must leave no trace
+            import asyncio.coroutines as _ac
+            hj._is_coroutine = _ac._is_coroutine
+            marked = True
+        else:
+            marked = False
         try:
             if op == 0:
                 if front == 'v2' and case.get('route') and eng.choice(2, 'via-route'):
                     # the decorator form of attaching (before connecting: no registration command is due)
                     face.running = False
                     try:
-                        target.route(key, pass_v2)(mk(j))
+                        target.route(key, pass_v2)(hj)
                     finally:
                         face.running = True
                 elif front == 'v2':
-                    target.attach_handler(key, mk(j), pass_v2)
+                    target.attach_handler(key, hj, pass_v2)
                 elif front == 'v1':
-                    target.set_interest_filter(key, mk(j))
+                    target.set_interest_filter(key, hj)
                 else:
-                    target.register(key, mk(j))
+                    target.register(key, hj)
                 if p in model:
                     eng.fail('second-attach-refused', 'attach-on-occupied-prefix-accepted', {'prefix': p})
                 model[p] = j
@@ -149,8 +158,12 @@ def _dispatch(eng, case, front):
                 else:
                     target.unregister(key)
                 model.pop(p, None)
+        except TypeError as e:
+            if not (op == 0 and marked):
+                eng.fail('attach-detach-no-error', exc_sig(e), {'op': op, 'prefix': p})
+            # refused because of the kind of handler: nothing is attached
         except ValueError as e:
-            if op != 0 or p not in before:
+            if op != 0 or (p not in before and not marked):
                 eng.fail('attach-detach-no-error', exc_sig(e), {'op': op, 'prefix': p})
         except KeyError as e:
             if op != 1 or p in before:
@@ -307,6 +320,11 @@ def cases(tier, seed):
     for h in ('dispatch_v2', 'dispatch_v1', 'dispatch_disp'):
         for n in (0, 1, 2):
             cs.append((h, {'ops': n}, {'weight': 1 + 60 ** n // 30, 'split_depth': 3 if n >= 2 else None}))
+        # handlers an implementation may refuse: a refused attach leaves nothing behind
+        cs.append((h, {'ops': 2, 'marked': True, 'reprs': [0, 1], 'prefixes': ['/a', '/a/a'],
+                       'inames': ['/a', '/a/a', '/a/a/z', '/b']}, {'weight': 20}))
+        cs.append((h, {'ops': 3, 'marked': True, 'reprs': [0, 1, 2], 'prefixes': ['/a', '/a/a'], 'inames': ['/a/a/z', '/a']},
+                   {'weight': 60, 'split_depth': 4}))
         # prefixes handed over in writable buffers that the caller overwrites afterwards
         cs.append((h, {'ops': 2, 'reprs': [4, 5], 'prefixes': ['/a', '/a/a', '/b']}, {'weight': 20}))
         cs.append((h, {'ops': 3, 'reprs': [5, 4, 4], 'prefixes': ['/a', '/a/a'], 'inames': ['/a', '/a/a', '/a/a/z', '/b']},
